@@ -1003,7 +1003,13 @@ func solveByComponents(ss *SolverSet, asserts []*Term, allVars []*Term, to int, 
 }
 
 var sampleStrings = []string{"a", "b", "c", "d", "x", "y", "p", "q", "", "\n", "a\nb", "\"", "`", "\\", "a/d", "b/d", "c/d", "/d", "/go", " ", "1", "a1", "//", "/*", "*/", "\xff", "\x00"}
-var sampleInts = []string{"0", "1", "2", "3", "255", "-1", "65", "128", "1000000", "4607182418800017408"}
+var sampleInts = func() []string {
+	out := []string{"0", "1", "2", "3", "255", "-1", "65", "128", "1000000"}
+	for _, f := range []float64{1, -1, 1.5, -0.5, 100, 1e6, -1e6, -2.5e6, 1e20, -1e20, 1e21, 1e-7, -1e-7, 123456789, -123456789} {
+		out = append(out, f64bits(f))
+	}
+	return out
+}()
 
 // sampleModel searches the finite domain of preferred inputs for an assignment that makes every
 // assertion true under native evaluation (real library functions). It is a counterexample /
